@@ -77,6 +77,47 @@ func runRepro(seed int64, dir string, res *vh.Result) {
 	}
 }
 
+// runExportRepro: the history of the repaired ExportTx defect (the two "partially truncated transaction" returns used
+// to leave _valBsMux locked): one value log, chunk files of 64 bytes; tx 1 = one 32-byte value (offset 0), tx 2 = two
+// 32-byte values (offsets 32 and 64: chunks 0 and 1), tx 3 = one 32-byte value (offset 96); TruncateUptoTx(3) removes
+// chunk 0; ExportTx(1) is exported by digest, ExportTx(2) fails with "partially truncated transaction", and the
+// following ExportTx(3) must return (all its values).
+func runExportRepro(seed int64, dir string, res *vh.Result) {
+	w := &world{dir: filepath.Join(dir, "export"), m: 1, f: 2, unit: 32, seed: seed, txs: map[uint64]*txRec{}, res: res}
+	vh.Must(w.open(), "open")
+	for i, lens := range [][]int{{1}, {1, 1}, {1}} {
+		rec, ch := w.startCommitter(i+1, lens, "", false)
+		cr := <-ch
+		vh.Must(cr.err, "commit")
+		w.register(rec, cr.hdr)
+	}
+	if hung, err := w.truncate(3); hung || err != nil {
+		vh.Fatalf("export repro: TruncateUptoTx(3): hung=%v err=%v", hung, err)
+	}
+	got := []string{}
+	for id := uint64(1); id <= 3 && !w.hung; id++ {
+		r, msg := w.exportOnce(id)
+		got = append(got, r)
+		res.Count("export:"+r, 1)
+		if r == "blocked" {
+			res.Violate(sigExpHang, fmt.Sprintf("1 value log, file size 64, txs [32], [32 32], [32] bytes, TruncateUptoTx(3): exports so far %v; ExportTx(%d) did not return within %v", got, id, hangDeadline),
+				map[string]interface{}{"goroutines": msg, "how": "harness/cmd/c14 -mode race (runExportRepro)"})
+		}
+	}
+	if !w.hung && fmt.Sprint(got) != "[digests error values]" {
+		res.DriftNote(fmt.Sprintf("export repro: ExportTx(1..3) = %v, expected [digests error values]", got))
+	}
+	if !w.hung {
+		for _, f := range w.validate("export repro", nil) {
+			res.Violate(f.sig, "export repro (1 value log, file size 64): "+f.text, f.extra)
+		}
+		w.close()
+		os.RemoveAll(w.dir)
+	}
+	res.Count("repro:export-after-partially-truncated-tx", 1)
+	res.Traces++
+}
+
 func waitPre(st *store.ImmuStore, id uint64) {
 	dl := time.Now().Add(stepDeadline)
 	for st.LastPrecommittedTxID() < id {
